@@ -379,6 +379,10 @@ PROPS["C06"] = {
              "#handed = #received + slow_conn delta and every received line is intact; endpoint absent with spooling off: conn_down_no_spool "
              "delta = #handed after a Flush barrier. stuttering_endpoint (own sub-check, one case costs the pause): an endpoint that stays connected but reads nothing "
              "for 11-14 s under traffic far beyond every buffer and then resumes -- same oracle as a healthy one. "
+             "silent_endpoint (own sub-check): an address that neither accepts nor refuses (listen backlog 0 with a full accept queue: SYNs are swallowed, "
+             "every dial hangs) - either the destination's address from the start (spooling off: the 'down' steady state, conn_down_no_spool delta = #handed) or "
+             "the target of an admin re-address request (UpdateDestination addr=...) issued in the middle of the traffic against a healthy endpoint, whose dial "
+             "hangs for the rest of the case while the old connection stays up (bounded hand-offs, sibling route complete, #handed = #received + slow_conn). "
              "Transitions (closing) and the black hole are checked for boundedness only, as the "
              "statement says. Non-trivial: the traffic demonstrably exceeded the buffers (drop counters moved / traffic sent into a non-reading "
              "endpoint). Distinct = hash(scenario parameters)."),
@@ -386,8 +390,8 @@ PROPS["C06"] = {
     "level_note": "A wall-clock bound is an inherently fragile oracle: it is three orders of magnitude above normal and only a repeated hit is reported. Receive buffers are set on the listening socket (shrinking an established connection's buffer makes the kernel drop in-flight data).",
     "technique": "property-based testing (rapid) with fault injection at the endpoint: latency-bound watchdog + accounting identities",
     "assumptions": ["loopback TCP", "the scheduler gives the dispatcher goroutine CPU time within the bound"],
-    "quick": [R("TestPropBadEndpoint", 90), R("TestPropStutteringEndpoint", 2)],
-    "thorough": [R("TestPropBadEndpoint", 150, shards=8, timeout=3000), R("TestPropStutteringEndpoint", 12, shards=4, timeout=3000)],
+    "quick": [R("TestPropBadEndpoint", 90), R("TestPropSilentEndpoint", 8), R("TestPropStutteringEndpoint", 2)],
+    "thorough": [R("TestPropBadEndpoint", 150, shards=8, timeout=3000), R("TestPropSilentEndpoint", 40, shards=4, timeout=3000), R("TestPropStutteringEndpoint", 12, shards=4, timeout=3000)],
 }
 
 PROPS["C07"] = {
